@@ -14,11 +14,13 @@
    Hashes are abstract numbers.  h_hash is the hash of the header (what Header.Hash() computes);
    d_hash is the hash the peer STATES for the block.
 
-   Two switches select the repaired code (true) or the pinned tree (false):
+   Three switches select the repaired code (true) or the pinned tree (false):
      chk   validateResponseFields also rejects a block whose stated hash differs from the hash of
            its header (fixes/C32-1-stated-hash.patch)
      frg   Process ignores empty responses and turns every completed block into a fragment of its
-           own (fixes/C32-2-ready-fragments.patch) *)
+           own (fixes/C32-2-ready-fragments.patch)
+     lg    the log line for a known bad block no longer dereferences the (possibly nil) header
+           (fixes/C32-3-bad-block-nil-header.patch) *)
 From Coq Require Import NArith ZArith List Bool.
 From Common Require Import Outcome.
 From C32 Require Import Gen.
@@ -103,7 +105,7 @@ Inductive verdict :=
 | VAccept (q : request) (resp : list bdata)
 | VPanic.                                 (* nil dereference *)
 
-Definition classify (chk frg : bool) (bad : list N) (r : result) : verdict :=
+Definition classify (chk frg lg : bool) (bad : list N) (r : result) : verdict :=
   if negb (r_completed r) then VSkip else
   let q := r_req r in
   let resp := if q_dir q =? dir_desc then rev (r_resp r) else r_resp r in
@@ -119,7 +121,7 @@ Definition classify (chk frg : bool) (bad : list N) (r : result) : verdict :=
       match find (is_bad bad) resp with
       | Some b =>
         match d_header b with
-        | None => VPanic              (* block.Number() in the log line *)
+        | None => if lg then VBan else VPanic   (* block.Number() in the log line *)
         | Some _ => VBan
         end
       | None =>
@@ -130,13 +132,13 @@ Definition classify (chk frg : bool) (bad : list N) (r : result) : verdict :=
   end.
 
 (* validateResults *)
-Fixpoint validate_results (chk frg : bool) (bad : list N) (rs : list result) (acc : validated)
+Fixpoint validate_results (chk frg lg : bool) (bad : list N) (rs : list result) (acc : validated)
   : outcome validated :=
   match rs with
   | [] => Ok acc
   | r :: rest =>
-    let continue := validate_results chk frg bad rest in
-    match classify chk frg bad r with
+    let continue := validate_results chk frg lg bad rest in
+    match classify chk frg lg bad r with
     | VSkip => continue acc
     | VRep c => continue (mkval (v_reps acc ++ [(r_who r, c)]) (v_bans acc) (v_ok acc))
     | VBan => continue (mkval (v_reps acc ++ [(r_who r, REP_BAD_BLOCK)]) (v_bans acc ++ [r_who r]) (v_ok acc))
@@ -146,13 +148,13 @@ Fixpoint validate_results (chk frg : bool) (bad : list N) (rs : list result) (ac
   end.
 
 (* which results validateResults accepts (None: it panics) *)
-Fixpoint accepted (chk frg : bool) (bad : list N) (rs : list result) : option (list bool) :=
+Fixpoint accepted (chk frg lg : bool) (bad : list N) (rs : list result) : option (list bool) :=
   match rs with
   | [] => Some []
   | r :: rest =>
-    match classify chk frg bad r with
+    match classify chk frg lg bad r with
     | VPanic => None
-    | v => match accepted chk frg bad rest with
+    | v => match accepted chk frg lg bad rest with
            | Some l => Some ((match v with VAccept _ _ => true | _ => false end) :: l)
            | None => None
            end
@@ -401,8 +403,8 @@ Fixpoint second_round (e : env) (dis : list (list bdata)) (u : unready) (queue :
     end
   end.
 
-Definition process (chk frg : bool) (bad : list N) (st : pstate) (rs : list result) : outcome presult :=
-  match validate_results chk frg bad rs (mkval [] [] []) with
+Definition process (chk frg lg : bool) (bad : list N) (st : pstate) (rs : list result) : outcome presult :=
+  match validate_results chk frg lg bad rs (mkval [] [] []) with
   | Ok v =>
     match collect_ready frg (fin (p_env st)) (p_un st) (v_ok v) [] with
     | Ok (u1, ready) =>
@@ -455,26 +457,26 @@ Inductive step :=
 | SFinal (n : N)
 | SProcess (rs : list result).
 
-Definition do_step (chk frg : bool) (bad : list N) (st : pstate) (s : step) : outcome (pstate * option presult) :=
+Definition do_step (chk frg lg : bool) (bad : list N) (st : pstate) (s : step) : outcome (pstate * option presult) :=
   match s with
   | SAnnounce h => Ok (mkps (p_env st) (new_incomplete (p_un st) h) (p_queue st), None)
   | SKnown h => Ok (mkps (mkenv (h :: known (p_env st)) (fin (p_env st))) (p_un st) (p_queue st), None)
   | SFinal n => Ok (mkps (mkenv (known (p_env st)) n) (p_un st) (p_queue st), None)
   | SProcess rs =>
-    match process chk frg bad st rs with
+    match process chk frg lg bad st rs with
     | Ok r => Ok (pr_state r, Some r)
     | Err c => Err c | Panic => Panic | OutOfFuel => OutOfFuel
     end
   end.
 
 (* runs a history; the results of the steps so far and whether it ended in a panic *)
-Fixpoint run (chk frg : bool) (bad : list N) (st : pstate) (h : list step)
+Fixpoint run (chk frg lg : bool) (bad : list N) (st : pstate) (h : list step)
   : list (option presult) * bool * pstate :=
   match h with
   | [] => ([], false, st)
   | s :: r =>
-    match do_step chk frg bad st s with
-    | Ok (st', o) => match run chk frg bad st' r with (os, p, stf) => (o :: os, p, stf) end
+    match do_step chk frg lg bad st s with
+    | Ok (st', o) => match run chk frg lg bad st' r with (os, p, stf) => (o :: os, p, stf) end
     | _ => ([], true, st)
     end
   end.
@@ -482,5 +484,5 @@ Fixpoint run (chk frg : bool) (bad : list N) (st : pstate) (h : list step)
 Definition init_state (root : N) : pstate := mkps (mkenv [root] 0) (mkun [] []) [].
 
 (* the repaired code and the pinned tree *)
-Definition process_fixed := process true true.
-Definition process_prefix := process false false.
+Definition process_fixed := process true true true.
+Definition process_prefix := process false false false.
